@@ -16,6 +16,9 @@ SEARCH_H = "lib/texellib/search.hpp"
 SEARCH_C = "lib/texellib/search.cpp"
 ENGINE_C = "app/texel/enginecontrol.cpp"
 UTIL_H = "lib/texellib/util/util.hpp"
+BB_H = "lib/texellib/bitBoard.hpp"
+BB_C = "lib/texellib/bitBoard.cpp"
+PIECE_H = "lib/texellib/piece.hpp"
 
 # (name, module, file, old, new, expectation)   expectation: "break" | "pass"
 CASES = [
@@ -122,6 +125,23 @@ CASES = [
      "            int moves = sPar.movesToGo;\n            if (moves == 0)\n                moves = 999;\n            moves = std::min(moves, static_cast<int>(timeMaxRemainingMoves)); // Assume at most N more moves until end of game\n            bool white = pos.isWhiteMove();\n            int time = white ? sPar.wTime : sPar.bTime;\n            int inc  = white ? sPar.wInc : sPar.bInc;",
      "            int moves = (sPar.movesToGo == 0) ? 999 : sPar.movesToGo;\n            bool white = pos.isWhiteMove();\n            moves = std::min(static_cast<int>(timeMaxRemainingMoves), moves);\n            int inc  = white ? sPar.wInc : sPar.bInc;\n            int time = white ? sPar.wTime : sPar.bTime;", "pass"),
     ("clamp: written with comparisons", "Time", UTIL_H, "    return std::min(std::max(val, min), max);", "    T lo = val < min ? min : val;\n    return max < lo ? max : lo;", "pass"),
+    # ---- Bits (bitBoard.hpp/.cpp de-Bruijn bit scans with const tables, piece.hpp enum arithmetic) ----------------
+    ("firstBit: de-Bruijn constant changed", "Bits", BB_H, "0x07EDD5E59A4E28C2ULL", "0x07EDD5E59A4E28C3ULL", "break"),
+    ("firstBit: mask & (mask - 1)", "Bits", BB_H, "((mask & -mask) * 0x07EDD5E59A4E28C2ULL)", "((mask & (mask - 1)) * 0x07EDD5E59A4E28C2ULL)", "break"),
+    ("firstBit: >> 57", "Bits", BB_H, "0x07EDD5E59A4E28C2ULL) >> 58)];", "0x07EDD5E59A4E28C2ULL) >> 57)];", "break"),
+    ("trailingZ: two table entries swapped", "Bits", BB_C, "    63,  0, 58,  1, 59, 47, 53,  2,", "    63,  0, 58,  1, 59, 53, 47,  2,", "break"),
+    ("lastBit: smear step >> 16 dropped", "Bits", BB_H, "    mask |= mask >> 16;\n", "", "break"),
+    ("lastBit: smear step >> 3 instead of >> 4", "Bits", BB_H, "    mask |= mask >> 4;\n", "    mask |= mask >> 3;\n", "break"),   # 1+1+2+3+8+16+32 = 63 < 64: bit 0 of smear(2^63) stays clear
+    ("lastBit: smear step >> 5 instead of >> 4", "Bits", BB_H, "    mask |= mask >> 4;\n", "    mask |= mask >> 5;\n", "break"),
+    ("lastBitTable: entry changed", "Bits", BB_C, "   13, 18,  8, 12,  7,  6,  5, 63", "   13, 18,  8, 12,  7,  6,  5, 62", "break"),
+    ("lastBitTable: one element fewer", "Bits", BB_C, "   13, 18,  8, 12,  7,  6,  5, 63\n};", "   13, 18,  8, 12,  7,  6,  5\n};", "break"),
+    ("Piece: BKING = 8 (enum renumbered)", "Bits", PIECE_H, "      WPAWN = 6,\n\n      BKING = 7,", "      WPAWN = 6,\n\n      BKING = 8,", "break"),
+    ("Piece::isWhite: <=", "Bits", PIECE_H, "    return pType < BKING;", "    return pType <= BKING;", "break"),
+    ("Piece::makeBlack: EMPTY mapped too", "Bits", PIECE_H, "return ((pType > EMPTY) && (pType < BKING)) ?", "return ((pType >= EMPTY) && (pType < BKING)) ?", "break"),
+    ("lastBit: x |= y as x = x | y, parameter renamed", "Bits", BB_H,
+     "    mask |= mask >> 1;\n    mask |= mask >> 2;", "    mask = mask | (mask >> 1);\n    mask = (mask >> 2) | mask;", "pass"),
+    ("Piece enumerators without explicit values", "Bits", PIECE_H,
+     "      EMPTY = 0,\n      WKING = 1,\n      WQUEEN = 2,\n      WROOK = 3,", "      EMPTY,\n      WKING,\n      WQUEEN,\n      WROOK = 3,", "pass"),
 ]
 
 
